@@ -257,27 +257,27 @@ TRUST = "rustc/Kani/CBMC/CaDiCaL trusted; std verified through unless a stub is 
 PROPS = {
  "C01": ("proof", "Mechanism functions under contract: encode = ISA bits, opcode, alias table, directive sizes, location-counter arithmetic (Verus, unbounded). Pass-1/pass-2 loops (HashMap<String,_>/BTreeMap plumbing) are assumed, incl. the lc+1 call site; label-offset contract is bounded (1 label) and in the thorough tier."),
  "C02": ("proof", "Arithmetic and range conditions: Cursor::shift (Verus, unbounded: accepted iff non-empty block stays below xFE00 without wrapping; error kind), ranges_overlap (complete). Structural conditions (nesting, duplicate labels, neighbour search) live in the pass loops: assumed."),
- "C05": ("proof", "From the token value onwards: value -> field conversions for every field width used, .fill literal, register token: complete over all token values. Text -> token value (logos DFA, validators) assumed."),
+ "C05": ("proof", "Value -> field conversions for every field width used, .fill literal and register token: complete over all token values. Text -> value: the lexer's validators (lex_reg, lex_unsigned_dec, lex_signed_dec, lex_unsigned_hex, lex_signed_hex) called directly under their token regex's precondition, bounded by literal length (1-6 digits). Which validator the logos DFA dispatches to is assumed."),
  "C06": ("proof", "Complete: loop-free harnesses over every 16-bit word and every representable instruction against an independent ISA reference."),
  "C07": ("proof", "Structural leg complete over all 65536 words: disassemble_line / try_disassemble_line, then into_sim_instr(any pc).encode() gives the word back; .fill for words below x0200 and non-instructions; aliases by name. The print -> lex -> parse leg (Display, logos) is assumed."),
  "C08": ("proof", "Modular: read_mem/write_mem against their contract (L1), then every step from every machine state, all opcodes, interrupts, real and virtual traps against an independent ISA reference with the memory accessors replaced by that contract (L2); leaf contracts for PSR, set_cc, decode."),
  "C09": ("proof", "Modular: access-check contract of read_mem/write_mem (L1: error iff user mode and outside x3000..xFDFF; then nothing reached), every access of every step carries the privilege of its mode and is one the ISA prescribes (L2), RTI in user mode is a privilege violation."),
  "C10": ("proof", "Per-step mechanism: gate (taken iff priority above current, only at the step start, polled once), entry state, entry followed by RTI restores everything (2-step lemma); arbitration bounded to 4 device slots. Handlers with bodies are guest programs: not claimed."),
  "C12": ("proof", "Step level: a step that neither halts nor raises an exception under virtual traps is identical under real traps (relational, all states); HALT/exception entry under real traps is the entry sequence of C08. OS message printing is guest code: not claimed."),
- "C13": ("other", "Run loops are a bounded stand-in (<= 3 iterations, Simulator::step replaced by its contract); predicates (Comparator::check, Breakpoint::check) are complete."),
+ "C13": ("other", "Run loops are a bounded stand-in (<= 3 iterations, thorough 4; Simulator::step replaced by its contract): stops exactly when the documented condition holds at an instruction boundary, no step is taken once it holds, nothing is changed between steps, a breakpoint added mid-run by the tripwire stops the run, step_out at depth 0 does nothing. step_in against step's contract and the breakpoint predicates (Comparator::check, Breakpoint::check) are complete."),
  "C14": ("proof", "Relational, per step, all states: strict vs non-strict run over the same memory function; in_alloca bounded (<= 2 blocks); strict branch of write_mem in L1."),
  "C15": ("proof", "Complete: relational loop-free harness over two pairs of agreeing words and all four operations."),
  "C16": ("proof", "Panic-freedom (overflow, bounds, unwrap) of every verified body from any machine state, incl. prefetch_pc after the step; inductive over histories."),
- "C19": ("other", "Partial, bounded: binary reader's slice helpers never panic and split exactly (slices <= 8 bytes). Text reader, link arithmetic and loading of wrapping blocks are not covered."),
- "C23": ("other", "Bounded stand-in: one-label tables built directly, query under either letter case."),
+ "C19": ("other", "Partial, bounded: binary reader's slice helpers never panic and split exactly (slices <= 8 bytes); count_digits total (complete); copy_obj_block never panics and places blocks exactly, incl. blocks wrapping past xFFFF (concrete shapes). The readers as a whole, the text format, link arithmetic are not covered."),
+ "C23": ("other", "Bounded stand-in: one-label tables built directly, one obligation per query spelling (upper, lower, other name) for lookup_label and get_label_source; rev_lookup_label and label_iter; pass 1's add_label (extracted verbatim) for a new name."),
  "C25": ("proof", "Index arithmetic unbounded (Verus on the verbatim bodies of count_lines, raw_line_span, get_pos_pair: any text length, any number of lines, any index, incl. past the end), against the assumed contract of get_line which is checked bounded (<= 4 table entries) by Kani; the same arithmetic is also cross-checked by bounded Kani obligations on directly built tables; trimming bounded (<= 4 ASCII bytes). from_string's newline scan (the invariant of the table) is assumed."),
  "C26": ("proof", "Span container: every ErrSpan constructible through its public From/Extend impls (incl. the empty list both link errors carry) supports first() and iter() without panic. Call sites assumed."),
- "C27": ("proof", "Depth delta is part of the ISA reference of every step (L2); push/pop leaf contract; debug frames bounded (<= 2 parameters)."),
+ "C27": ("proof", "Depth delta and the content of every entered frame (caller = calling / interrupted instruction, callee = subroutine start or vector, kind) are part of the ISA reference of every step (L2, push_frame replaced by its contract); push/pop leaf contract; debug frames without signature and get_arguments bounded (<= 2 parameters)."),
  "C28": ("proof", "Observer calls exact in read_mem/write_mem (L1), every program access tracked and the access set is the ISA's (L2); observer map bounded (2 updates)."),
  "C29": ("other", "Partial, bounded: MemArray::copy_obj_block (the function that places one block of the image) sets exactly the block's initialized words, marks its reserved words uninitialized and leaves every other word unchanged, incl. blocks that wrap past xFFFF -- for concrete start addresses and shapes (6 obligations), values / old memory / probe symbolic. load_obj_file's loop over blocks, the external-symbol check and 'a new simulator holds the OS image' are not covered."),
- "C30": ("proof", "reset against new_with_mcr's contract (recording stub): one fresh machine with same flags and MCR handle, breakpoints / register map / devices moved across, io_reset once."),
- "C32": ("proof", "Port-table representation invariant at symbolic witness ports: dispatch reaches the owner exactly once; add/remove/replace preserve it (device counts bounded: <= 5 slots, <= 2 requested ports); internal registers win over devices (L1); mmap/munmap."),
- "C34": ("proof", "Unbounded (Verus): countdown step contract on the verbatim bodies + interval/first-interrupt lemmas by induction; SampleRange::new leaf (Kani)."),
+ "C30": ("proof", "reset against new_with_mcr's contract (recording stub): constructor called once with the same flags and the same MCR handle; all architectural state (registers, PC, PSR, saved SP, frame depth, instruction count, memory at a symbolic probe, halt/breakpoint status) is the fresh machine's; device handler moved across; register map kept by content (one concrete mapping, bounded)."),
+ "C32": ("proof", "Port-table representation invariant at symbolic witness ports: dispatch reaches the owner exactly once; add/remove/replace preserve it (device counts bounded); internal registers win over devices (L1, empty and default map); mmap/munmap with concrete addresses incl. a second mapping of an occupied address; the real keyboard and display devices against their register contracts."),
+ "C34": ("proof", "Unbounded (Verus): countdown step contract on the verbatim bodies + interval/first-interrupt lemmas by induction. Kani: SampleRange::new leaf; try_generate_time draws inside the configured range (rand's range reduction verified through, four concrete ranges); every device polled exactly once per boundary also with external interrupts present."),
  "C35": ("proof", "Complete: 32 loop-free harnesses (N=1..16, signed/unsigned) over the full 16-bit input domain."),
 }
 props = {k: {"level": lv, "explanation": ex, "assumptions": [TRUST]} for k, (lv, ex) in PROPS.items()}
